@@ -8,7 +8,8 @@ use vstd::arithmetic::mul::*;
 verus! {
 
 // ---------- spec vocabulary ----------
-uninterp spec fn sha256(c: Seq<u8>) -> Seq<u8>;
+uninterp spec fn sha256_raw(c: Seq<u8>) -> Seq<u8>;
+spec fn sha256(c: Seq<u8>) -> Seq<u8> { if sha256_raw(c).len() == 32 { sha256_raw(c) } else { Seq::new(32, |i: int| 0u8) } }
 // UTF-8 encoding of a string (ASSUMED homomorphic; injectivity is only needed by unit B)
 uninterp spec fn utf8(s: Seq<char>) -> Seq<u8>;
 
@@ -93,6 +94,31 @@ impl Sha256 {
 //@ end
 //@ extract ticket.rs struct Ticket
 //@ end
+
+// ---------- ghost world (only what from_file needs) and ASSUMED System / Read contracts ----------
+struct FileEntry { content: Seq<u8>, mtime: u64, executable: bool }
+struct World { files: Map<Seq<char>, FileEntry>, dirs: Set<Seq<char>>, cache_dir: Seq<char>, targets: Set<Seq<char>>, execs: Seq<Seq<Seq<char>>> }
+struct IoError { x: u8 }
+// std::io::Read on an open file: returns the next n <= buf.len() bytes; 0 only at end of file
+trait ReadFile : Sized {
+    spec fn content(&self) -> Seq<u8>;
+    spec fn pos(&self) -> int;
+    fn read(&mut self, buf: &mut [u8; 256]) -> (r: Result<usize, IoError>)
+        requires 0 <= old(self).pos() <= old(self).content().len()
+        ensures final(self).content() == old(self).content(),
+            r matches Ok(n) ==> n <= 256 && final(self).pos() == old(self).pos() + n && final(self).pos() <= final(self).content().len()
+                && (n == 0 ==> old(self).pos() == old(self).content().len())
+                && final(buf)@.subrange(0, n as int) == old(self).content().subrange(old(self).pos(), old(self).pos() + n),
+            r is Err ==> final(self).pos() == old(self).pos();
+}
+trait System : Sized {
+    type File: ReadFile;
+    fn open(&self, path: &str, Tracked(w): Tracked<&mut World>) -> (r: Result<Self::File, SystemError>)
+        ensures *final(w) == *old(w),
+            r matches Ok(f) ==> old(w).files.contains_key(path@) && f.content() == old(w).files[path@].content && f.pos() == 0;
+}
+// ASSUMED: `format!("{}", error)`
+#[verifier::external_body] fn io_error_string(e: &IoError) -> (r: String) { unimplemented!() }
 
 // ---------- arithmetic lemmas (no repo code) ----------
 proof fn bound_256_43() ensures pow(2, 256) < pow(62, 43), pow(256, 32) == pow(2, 256)
@@ -280,8 +306,8 @@ proof fn lemma_enc62_injective(a: Seq<u8>, b: Seq<u8>) requires a.len() == 32, b
 //@ props C15 C07 C19 C05
 //@ ret res
 //@ rewrite 1 /n > BigUint::zero\(\)/ => n.gt_zero()
-//@ rewrite 1 /\(&n % 62u32\)\.to_u32\(\)\.unwrap\(\)/ => n.rem_small(62u32)
-//@ rewrite 1 /n \/= 62u32;/ => n.div_small(62u32);
+//@ rewrite 1 /\(&n % (\w+)\)\.to_u32\(\)\.unwrap\(\)/ => n.rem_small(\1)
+//@ rewrite 1 /n \/= (\w+);/ => n.div_small(\1);
 //@ rewrite 1 /std::str::from_utf8\(&buffer\)\.unwrap\(\)\.to_string\(\)/ => ascii_to_string(&buffer)
 //@ retype 1 /let mut i = 0;/ => let mut i : usize = 0;
 //@ spec
@@ -356,10 +382,10 @@ proof fn first_bad_from(t: Seq<char>, from: int, k: int) requires 0 <= from <= k
 //@ extract ticket.rs fn decode62
 //@ props C15 C19 C05
 //@ ret res
-//@ rewrite 1 /tag\.len\(\) != 43/ => str_byte_len(tag) != 43
+//@ rewrite 1 /tag\.len\(\)/ => str_byte_len(tag)
 //@ rewrite 1 /tag\.chars\(\)/ => str_chars(tag)
 //@ rewrite 1 /n \+= &d \*\n/ => n.add_mul(&d,\n
-//@ rewrite 1 /\},\n        \};\n        d \*= 62u32;/ => },\n        });\n        d.mul_small(62u32);
+//@ rewrite 1 /\},\n        \};\n        d \*= (\w+);/ => },\n        });\n        d.mul_small(\1);
 //@ retype 1 /let mut i = 0;/ => let mut i : usize = 0;
 //@ spec
     ensures
@@ -381,10 +407,15 @@ proof fn first_bad_from(t: Seq<char>, from: int, k: int) requires 0 <= from <= k
             d.val() == pow(62, it.index@ as nat),
 //@ hint after 1/1 /for c in tag\.chars\(\)\s*\{/
         proof { pow62_succ(it.index@ as nat); pow62_pos(it.index@ as nat); }
-//@ hint after 1/1 /d \*= 62u32;/
+//@ hint before 1/1 /n \+= &d \*\n/
+        let ghost n_before = n.val(); let ghost d_before = d.val();
+//@ hint after 1/1 /d \*= \w+;/
         proof {
             let k = it.index@;
             assert(c == t[k]);
+            assert(char_digit(c) is Some);
+            assert(n.val() == n_before + d_before * char_digit(c).unwrap());
+            lemma_mul_is_commutative(d_before as int, char_digit(c).unwrap() as int);
             assert(val62(t, (k + 1) as nat) == val62(t, k as nat) + char_digit(t[k]).unwrap() * (pow(62, k as nat) as nat));
         }
 //@ hint before 1/1 /let v = n\.to_bytes_le\(\);/
@@ -445,7 +476,7 @@ impl Ticket {
         proof {
             let t = human_readable_str@;
             if t.len() == 43 && all_digits(t, 43) && val62(t, 43) < pow(2, 256) { }
-            assert forall|b: Seq<u8>| b.len() == 32 implies (t == #[trigger] enc62_sha(b) ==> t.len() == 43 && all_digits(t, 43) && val62(t, 43) < pow(2, 256) && is_ascii(t)) by {
+            assert forall|b: Seq<u8>| b.len() == 32 && t == #[trigger] enc62_sha(b) implies t.len() == 43 && all_digits(t, 43) && val62(t, 43) < pow(2, 256) && is_ascii(t) by {
                 le_val_bound(b); bound_256_43(); lemma_roundtrip(le_val(b));
             }
         }
@@ -465,12 +496,12 @@ impl Ticket {
         let ghost T = strs(targets@); let ghost S = strs(sources@); let ghost C = strs(command@);
         proof { utf8_empty(); reveal_strlit("\n"); reveal_strlit("\n:\n"); assert(lines(T.subrange(0, 0)) =~= Seq::<char>::empty()); assert("\n"@ =~= NL()); assert("\n:\n"@ =~= SEP()); }
 //@ hint after 1/3 /factory\.input_str\("\\n"\);/
-            proof { assert(T.len() == targets@.len() && T[it.index@] == targets@[it.index@]@); lines_step(T, it.index@, targets@[it.index@]@); utf8_step(lines(T.subrange(0, it.index@)), target@, NL()); }
+            proof { reveal_strlit("\n"); assert("\n"@ =~= NL()); assert(T.len() == targets@.len() && T[it.index@] == targets@[it.index@]@); lines_step(T, it.index@, targets@[it.index@]@); utf8_step(lines(T.subrange(0, it.index@)), target@, NL()); }
 //@ hint after 2/3 /factory\.input_str\("\\n"\);/
-            proof { assert(S.len() == sources@.len() && S[it.index@] == sources@[it.index@]@); lines_step(S, it.index@, sources@[it.index@]@); utf8_step(lines(T) + SEP() + lines(S.subrange(0, it.index@)), source@, NL()); 
+            proof { reveal_strlit("\n"); assert("\n"@ =~= NL()); assert(S.len() == sources@.len() && S[it.index@] == sources@[it.index@]@); lines_step(S, it.index@, sources@[it.index@]@); utf8_step(lines(T) + SEP() + lines(S.subrange(0, it.index@)), source@, NL()); 
                     assert(lines(T) + SEP() + lines(S.subrange(0, it.index@)) + source@ + NL() =~= lines(T) + SEP() + (lines(S.subrange(0, it.index@)) + source@ + NL())); }
 //@ hint after 3/3 /factory\.input_str\("\\n"\);/
-            proof { assert(C.len() == command@.len() && C[it.index@] == command@[it.index@]@); lines_step(C, it.index@, command@[it.index@]@); utf8_step(lines(T) + SEP() + lines(S) + SEP() + lines(C.subrange(0, it.index@)), line@, NL());
+            proof { reveal_strlit("\n"); assert("\n"@ =~= NL()); assert(C.len() == command@.len() && C[it.index@] == command@[it.index@]@); lines_step(C, it.index@, command@[it.index@]@); utf8_step(lines(T) + SEP() + lines(S) + SEP() + lines(C.subrange(0, it.index@)), line@, NL());
                     assert(lines(T) + SEP() + lines(S) + SEP() + lines(C.subrange(0, it.index@)) + line@ + NL() =~= lines(T) + SEP() + lines(S) + SEP() + (lines(C.subrange(0, it.index@)) + line@ + NL())); }
 //@ hint after 1/3 /factory\.input_str\("\\n:\\n"\);/
         proof { assert(T.subrange(0, T.len() as int) =~= T); utf8_concat(lines(T), SEP()); assert(lines(S.subrange(0, 0)) =~= Seq::<char>::empty()); assert(lines(T) + SEP() + Seq::<char>::empty() =~= lines(T) + SEP()); }
@@ -480,13 +511,13 @@ impl Ticket {
         proof { assert(C.subrange(0, C.len() as int) =~= C); utf8_concat(lines(T) + SEP() + lines(S) + SEP() + lines(C), SEP()); }
 //@ loop 1 binder it
 //@ loop 1 invariant
-            invariant factory.acc() == utf8(lines(strs(targets@).subrange(0, it.index@))),
+            invariant T == strs(targets@), factory.acc() == utf8(lines(T.subrange(0, it.index@))),
 //@ loop 2 binder it
 //@ loop 2 invariant
-            invariant factory.acc() == utf8(lines(strs(targets@)) + SEP() + lines(strs(sources@).subrange(0, it.index@))),
+            invariant T == strs(targets@), S == strs(sources@), factory.acc() == utf8(lines(T) + SEP() + lines(S.subrange(0, it.index@))),
 //@ loop 3 binder it
 //@ loop 3 invariant
-            invariant factory.acc() == utf8(lines(strs(targets@)) + SEP() + lines(strs(sources@)) + SEP() + lines(strs(command@).subrange(0, it.index@))),
+            invariant T == strs(targets@), S == strs(sources@), C == strs(command@), factory.acc() == utf8(lines(T) + SEP() + lines(S) + SEP() + lines(C.subrange(0, it.index@))),
 //@ end
 }
 proof fn lines_step(v: Seq<Seq<char>>, k: int, x: Seq<char>) requires 0 <= k < v.len(), v[k] == x ensures lines(v.subrange(0, k + 1)) == lines(v.subrange(0, k)) + x + NL()
@@ -494,7 +525,9 @@ proof fn lines_step(v: Seq<Seq<char>>, k: int, x: Seq<char>) requires 0 <= k < v
 proof fn utf8_step(a: Seq<char>, x: Seq<char>, nl: Seq<char>) ensures utf8(a) + utf8(x) + utf8(nl) == utf8(a + x + nl)
 { utf8_concat(a, x); utf8_concat(a + x, nl); }
 spec fn strs(v: Seq<String>) -> Seq<Seq<char>> { v.map_values(|l: String| l@) }
+#[allow(non_snake_case)]
 spec fn NL() -> Seq<char> { seq!['\n'] }
+#[allow(non_snake_case)]
 spec fn SEP() -> Seq<char> { seq!['\n', ':', '\n'] }
 // each line followed by a newline
 spec fn lines(v: Seq<Seq<char>>) -> Seq<char> decreases v.len() { if v.len() == 0 { Seq::empty() } else { lines(v.drop_last()) + v.last() + NL() } }
@@ -522,6 +555,31 @@ impl TicketFactory {
 //@ rewrite 1 /input\.as_bytes\(\)/ => str_as_bytes(input)
 //@ spec
         ensures final(self).acc() == old(self).acc() + utf8(input@),      //# O-A-input-str [C13]
+//@ end
+
+//@ extract ticket.rs impl /^TicketFactory$/ fn from_file
+//@ props C15 C07 C05
+//@ ret res
+//@ param Tracked(w): Tracked<&mut World>
+//@ addarg 1 /file_system\.open/ Tracked(w)
+//@ rewrite 1 /format!\("\{\}", error\)/ => io_error_string(&error)
+//@ spec
+        ensures *final(w) == *old(w),
+            // the digest input is exactly the file's bytes -- whatever its size, path or age, for any chunking the reader chooses
+            res matches Ok(f) ==> old(w).files.contains_key(path@) && f.acc() == old(w).files[path@].content,      //# O-A-from-file [C15,C07]
+//@ loop 1 invariant
+                    invariant 0 <= reader.pos() <= reader.content().len(),
+                        *w == *old(w), old(w).files.contains_key(path@), reader.content() == old(w).files[path@].content,
+                        dig.acc@ =~= reader.content().subrange(0, reader.pos()),
+                    decreases reader.content().len() - reader.pos(),
+//@ hint before 1/1 /match reader\.read\(&mut buffer\)/
+                    let ghost p0 = reader.pos();
+                    proof { assert(reader.content().subrange(0, reader.content().len() as int) =~= reader.content()); }
+//@ hint after 1/1 /dig\.input\([^;]*\);/
+                            proof {
+                                assert(buffer@.subrange(0, size as int) == reader.content().subrange(p0, p0 + size));
+                                assert(reader.content().subrange(0, p0) + reader.content().subrange(p0, p0 + size) =~= reader.content().subrange(0, p0 + size));
+                            }
 //@ end
 
 //@ extract ticket.rs impl /^TicketFactory$/ fn result
